@@ -412,6 +412,8 @@ pub fn run(ctx: &Ctx) {
     // golden scenario (one deterministic case)
     indexed_stage(ctx, "golden", 1, |_| json!("five-step interop scenario"), |_, _| golden_scenario());
     random_stage(ctx, "dir1-writer", ctx.tier.pick(3_000, 60_000), || crate::props::c01::history_strategy(40), |ops: &Vec<Op>, local| run_writer_history(ops, local));
+    // histories in which the core is made read-only and then cleared/reopened further
+    random_stage(ctx, "dir1-writer-readonly", ctx.tier.pick(1_500, 30_000), crate::props::c12::history_strategy, |ops: &Vec<Op>, local| run_writer_history(ops, local));
     random_stage(ctx, "dir1-sessions", ctx.tier.pick(2_000, 40_000), || session_strategy(30), |ops: &Vec<SOp>, local| run_session(ops, local));
     random_stage(ctx, "dir2-js-storage", ctx.tier.pick(4_000, 80_000), desc_strategy, |d: &StoreDesc, local| run_desc(d, local));
     // multi-page bitfields and deep trees in both directions
